@@ -119,3 +119,57 @@ Proof.
   - exists (elitism p cs best new). split; [reflexivity|]. split; [apply model_eli_holds_b|apply model_eli_head_b].
   - apply model_inh_holds_b.
 Qed.
+
+(* ------------------------------------------------------------------ custom selection callables *)
+(* a user selection function is well-behaved when it returns distinct members (positions) of
+   its input, at most as many as requested *)
+Definition well_behaved (f : list ind -> nat -> list ind) : Prop :=
+  forall l n, (exists rest, Permutation (f l n ++ rest) l) /\ length (f l n) <= n.
+
+Lemma steady_full_NoDup prev new :
+  NoDup (map uid prev) -> NoDup (map uid new) -> NoDup (map uid (steady_full prev new)).
+Proof. intros Np Nn. exact (rw_pop_NoDup new prev Nn Np). Qed.
+
+Theorem inheritance_custom_contract f sc pop_size prev new :
+  well_behaved f ->
+  let out := inherit_custom f sc pop_size prev new in
+  incl out (prev ++ new) /\ length out <= pop_size /\
+  (NoDup (map uid prev) -> NoDup (map uid new) -> NoDup (map uid out)).
+Proof.
+  intros W. destruct sc; simpl;
+    try (destruct (W (steady_full prev new) pop_size) as [[rest P] L];
+         split; [intros x Hx; apply steady_full_incl; eapply Permutation_app_incl; eauto|];
+         split; [exact L|];
+         intros Np Nn; eapply Permutation_app_NoDup_map; [exact P|apply steady_full_NoDup; assumption]).
+  split; [intros x Hx; apply in_or_app; right; eapply firstn_incl, Hx|].
+  split; [rewrite firstn_length; lia|]. intros _ Nn. apply firstn_NoDup_map, Nn.
+Qed.
+
+(* the three functions the driver uses are well-behaved *)
+Lemma custom_fn_well_behaved c : well_behaved (custom_fn c).
+Proof.
+  intros l n. destruct c; simpl.
+  - split; [exists (skipn n l); rewrite firstn_skipn; apply Permutation_refl|rewrite firstn_length; lia].
+  - split.
+    + exists (firstn (length l - n) l). eapply perm_trans; [apply Permutation_app_comm|].
+      rewrite firstn_skipn. apply Permutation_refl.
+    + rewrite skipn_length. lia.
+  - split.
+    + exists (skipn n (sort_desc worse l)). rewrite firstn_skipn. apply stable_sort_perm.
+    + rewrite firstn_length. lia.
+Qed.
+
+(* the executable clauses hold of the model output for every well-behaved user function *)
+Theorem model_inh_custom_holds_b f sc pop_size prev new :
+  well_behaved f -> inh_custom_holds_b sc pop_size prev new (inherit_custom f sc pop_size prev new) = true.
+Proof.
+  intros W. destruct (inheritance_custom_contract f sc pop_size prev new W) as (I & L & N).
+  unfold inh_custom_holds_b. rewrite (subset_b_of_incl _ _ I). apply Nat.leb_le in L. rewrite L. cbn [andb].
+  unfold implb. destruct sc.
+  - destruct (nodup_uid prev) eqn:Np; [|reflexivity]. destruct (nodup_uid new) eqn:Nn; [|reflexivity].
+    cbn [andb negb orb]. apply nodup_uid_iff, N; apply nodup_uid_iff; assumption.
+  - destruct (nodup_uid new) eqn:Nn; [|reflexivity]. cbn [negb orb].
+    simpl. apply nodup_uid_iff, firstn_NoDup_map, nodup_uid_iff, Nn.
+  - destruct (nodup_uid prev) eqn:Np; [|reflexivity]. destruct (nodup_uid new) eqn:Nn; [|reflexivity].
+    cbn [andb negb orb]. apply nodup_uid_iff, N; apply nodup_uid_iff; assumption.
+Qed.
